@@ -4,14 +4,15 @@ import VelaVerif.Handlers.Util
 /-!
 Lookup-table residency (C03, function level; `harness/lutstate_lib.py`).
 
-`lutpass <lutStart> <lutSize> <reserved> T <vals>:<size>:<content> … P <0|1>:<tid|-> … C <d.p.t | s.p | o> …`
+`lutpass <lutStart> <lutSize> <reserved> <widthAware 0|1> <sticky 0|1> T <vals>:<size>:<content> … P <0|1>:<tid|-> … C <d.p.t | s.p | o> …`
   tables (tid = position), passes (pid = position: `ps.lut_tensor is not None`, the table its operation reads), commands.
   answer `ok log=<call log, ';'-separated, '_' for ' '> kept=<i,…> addr=<a|-,…> idx=<i|-,…> stable=<b> eqbytes=<b>
-  origok=<b> agree=<b> sizes=<b> spec=<n problems of the model's final stream>` or `err:value log=…`
+  origok=<b> agree=<b> sizes=<b> dmaown=<b> spec=<n problems of the model's final stream>` or `err:value log=…`
+  (the two flags select the variant of lut.py: Model/LutState.lean `Ctx.widthAware`, `Ctx.sticky`)
 `lutspec <accelerator name> E <l.content.size.addr.region | u.content.size.idx | k | n> …`
   the byte-level Spec on a stream of window events (what the REAL pass left), geometry hand-written by accelerator name;
   answer `ok` or `bad n=<k> <first problems, ' ~ ' separated>`
-`luteq S <tid:vals:size:addr> … V <vals>`           → tid of the entry `get_equivalent` returns, `-` for None
+`luteq S <tid:vals:size:addr> … V <vals> <size> <widthAware>` → tid of the entry `get_equivalent` returns, `-` for None
 `lutfba S <…> … A <start> <stop> <step>`            → address, `err:value`
 `lutput S <…> … N <tid:vals:size:addr>`             → the new list `tid@addr …`
 `lutidx <lutStart> <addr> <size>`                   → `get_lut_index`, `err:assert`
@@ -52,7 +53,7 @@ def parseCmd (nt np : Nat) (s : String) : Option Cmd :=
 
 def parseCase (toks : List String) : Option Case := do
   let (hd, rest) := splitAt toks "T"
-  let [a, b, c] ← parseNats hd | none
+  let [a, b, c, wa, sk] ← parseNats hd | none
   let (ts, rest) := splitAt rest "P"
   let (ps, cs) := splitAt rest "C"
   let tabs ← ts.mapM fun s => match (fields s ":").mapM parseNat? with | some [v, n, k] => some (v, n, k) | _ => none
@@ -65,13 +66,15 @@ def parseCase (toks : List String) : Option Case := do
   let ta := tabs.toArray
   let pa := passes.toArray
   some { ctx := { lutStart := a, lutSize := b, reserved := c, vals := fun t => (ta[t]?.map (·.1)).getD 0,
-                  size := fun t => (ta[t]?.map (·.2.1)).getD 0, passLut := fun p => (pa[p]?.map (·.1)).getD false },
+                  size := fun t => (ta[t]?.map (·.2.1)).getD 0, passLut := fun p => (pa[p]?.map (·.1)).getD false,
+                  widthAware := wa != 0, sticky := sk != 0 },
          ref := { content := fun t => (ta[t]?.map (·.2.2)).getD 0, passTab := fun p => (pa[p]?.bind (·.2)) },
          ntab := tabs.length, npass := passes.length, cmds := cmds }
 
 def eqBytesB (k : Case) : Bool :=
   (List.range k.ntab).all fun t => (List.range k.ntab).all fun u =>
-    k.ctx.vals t != k.ctx.vals u || (k.ctx.size t == k.ctx.size u && k.ref.content t == k.ref.content u)
+    k.ctx.vals t != k.ctx.vals u || (k.ctx.widthAware && k.ctx.size t != k.ctx.size u) ||
+      (k.ctx.size t == k.ctx.size u && k.ref.content t == k.ref.content u)
 
 def agreeB (k : Case) : Bool := (List.range k.npass).all fun p => k.ctx.passLut p == (k.ref.passTab p).isSome
 
@@ -118,7 +121,7 @@ def handle : List String → Option String
         let probs := problems (geomOf k.ctx) (eventsFinal k.ctx k.ref sf.env k.cmds acts)
         some (s!"ok log={log} kept={",".intercalate kept} addr={",".intercalate addr} idx={",".intercalate idx} " ++
           s!"stable={boolStr (stable sf.env)} eqbytes={boolStr (eqBytesB k)} origok={boolStr (origOkB k.ctx k.ref none k.cmds)} " ++
-          s!"agree={boolStr (agreeB k)} sizes={boolStr (sizesB k)} spec={probs.length}")
+          s!"agree={boolStr (agreeB k)} sizes={boolStr (sizesB k)} dmaown={boolStr (dmaOwnB k.ref k.cmds)} spec={probs.length}")
   | "lutspec" :: name :: "E" :: evs =>
     match hwGeom name, evs.mapM parseEv with
     | some g, some es =>
@@ -129,7 +132,10 @@ def handle : List String → Option String
   | "luteq" :: "S" :: toks =>
     let (st, v) := splitAt toks "V"
     match parseState st, parseNats v with
-    | some st, some [v] => some (match getEquivalent st v with | some e => toString e.tid | none => "-")
+    | some st, some [v, n, wa] =>
+      let c : Ctx := { lutStart := 0, lutSize := 0, reserved := 0, vals := fun _ => v, size := fun _ => n, passLut := fun _ => false,
+                       widthAware := wa != 0 }
+      some (match getEquiv c st 0 with | some e => toString e.tid | none => "-")
     | _, _ => some "err:parse"
   | "lutfba" :: "S" :: toks =>
     let (st, a) := splitAt toks "A"
